@@ -36,6 +36,9 @@ func init() {
 			{"C05.side-goroutine-errors", "the error of the Tar goroutine is consulted before the command reports success", 2, func(c *Ctx) {
 				c.sideGoroutineErrors(func(k string) bool { return strings.HasPrefix(k, "cmd.") })
 			}},
+			{"C05.flag-defaults", "owner and permissions are restored unless the user opts out", 2, func(c *Ctx) {
+				c.flagDefaults(map[string]flagSpec{"no-same-owner": {"false", ".NoSameOwner", 1}, "no-same-permissions": {"false", ".NoSamePermissions", 1}})
+			}},
 			{"C05.errors-not-dropped", "no error of the operations this property depends on is dropped", 1, func(c *Ctx) { c.errorsNotDropped("C05") }},
 		},
 	})
